@@ -19,6 +19,28 @@ CLAIMED = {
     ),
 }
 
+CLAIMED["C04"] = dict(
+    category="translation_validation",
+    text="Every generated program is compiled and run with the optimiser on and off on the real VM; result, failure and "
+         "the host-observed effect log must coincide. The one permitted difference (skipped dead built-in arithmetic) is "
+         "decided by counterfactual runs of the unoptimised compiler. Held on the pairs observed.",
+    design_ref="DESIGN.md §4 C04",
+    note="The unoptimised compiler is the reference; compiler crashes common to both modes are C01/C02 findings and are "
+         "skipped here; F18b attributed by a neutralising rewrite.",
+    technique="runtime monitoring: differential execution (optimised vs unoptimised) with an effect-log monitor on hooked host functions",
+)
+CLAIMED["C05"] = dict(
+    category="exploration",
+    text="Programs run under forced collection schedules (collect at every k-th allocation check, host collections between "
+         "evaluations); outcome must not depend on the schedule, a structural heap oracle (reachable ⊆ live over all heaps "
+         "from all roots) runs after every evaluation and collection, reclamation is compared with a same-VM baseline, and "
+         "the allocation-heavy family is repeated under AddressSanitizer.",
+    design_ref="DESIGN.md §4 C05",
+    note="Quiescent-point oracle; roots missing only inside Rust frames are visible through outcomes/ASan only. Known "
+         "findings F5 (module-level lazy) and F24 (spawned threads never reclaimed) keyed by workload family.",
+    technique="runtime monitoring: GC-stress hook + heap-walk invariant hook + AddressSanitizer + schedule-differential outcomes",
+)
+
 NOT_YET = "check not built yet in this session (work in progress; see DESIGN.md for the planned monitor)"
 
 def main():
